@@ -52,14 +52,33 @@ func modules(t *sg.TypeSpec, hops int) []*sg.Mod {
 		Identities: []*sg.Identity{{Name: "e1", Base: "m0:d1"}, {Name: "e2", Base: "e1"}, {Name: "u1"}, {Name: "lb"}, {Name: "l1", Base: "lb"}},
 		Nodes:      []*sg.Node{{Kind: "container", Name: "m1-top", Kids: []*sg.Node{{Kind: "leaf", Name: "v", Type: t}}}}}
 	// the same type reached by reference: value space, messages and app-tags must be those of the definition
+	// with hops, the last pattern of a string type may move from the innermost typedef to the leaf's own refinement of
+	// the outermost one: the value space is the same
+	var own []string
+	if hops > 0 && t.Name == "string" && len(t.Patterns) > 0 && t.PatMsg == "" && len(t.Patterns)%2 == 1 {
+		cp := *t
+		own = []string{t.Patterns[len(t.Patterns)-1]}
+		cp.Patterns = append([]string(nil), t.Patterns[:len(t.Patterns)-1]...)
+		t = &cp
+	}
 	for h := 0; h < hops; h++ {
 		name := fmt.Sprintf("td%d", h)
 		inner := t
 		if h > 0 {
 			inner = &sg.TypeSpec{Name: fmt.Sprintf("td%d", h-1)}
+			if t.Name == "string" {
+				// every level adds a pattern of its own that excludes nothing (the candidates hold no line break)
+				inner.Patterns = []string{".*"}
+			}
 		}
 		m1.Typedefs = append(m1.Typedefs, &sg.Typedef{Name: name, Type: inner})
-		m1.Nodes[0].Kids[0].Type = &sg.TypeSpec{Name: name}
+		m1.Nodes[0].Kids[0].Type = &sg.TypeSpec{Name: name, Patterns: own}
+	}
+	if hops > 0 && t.Name == "string" {
+		// a sibling compiled later refines the same typedef with a pattern of its own: that is its business alone
+		last := fmt.Sprintf("td%d", hops-1)
+		m1.Nodes[0].Kids = append(m1.Nodes[0].Kids, &sg.Node{Kind: "leaf", Name: "w1", Type: &sg.TypeSpec{Name: last, Patterns: []string{"zz+"}}},
+			&sg.Node{Kind: "leaf-list", Name: "w2", Type: &sg.TypeSpec{Name: last}})
 	}
 	return []*sg.Mod{m0, m1}
 }
@@ -293,7 +312,7 @@ func genCase(t *rapid.T) Case {
 	ty := g.typ(2)
 	c := Case{Type: ty, Values: candidates(g, ty)}
 	c.Path = []string{"m1-top", []string{"v", "v w", "v/w", "v%", "é"}[g.pick(5, "pathelem")]}
-	c.Hops = []int{0, 0, 1, 2}[g.pick(4, "hops")]
+	c.Hops = []int{0, 0, 1, 2, 3, 3}[g.pick(6, "hops")]
 	return c
 }
 
